@@ -236,7 +236,9 @@ def py_eval(n, ins, ov, path, prev=None):
         vals = []
         for i, s in enumerate(ch["srcs"]):
             if s[0] == "a":
-                vals.append(ins[s[1]])
+                # (a channel behind the macro input that was written directly holds its own value until the
+                # macro input is assigned again: the consumer of a single-use parameter, or its UI node)
+                vals.append(ov.get((tuple(path) + (j,), i), ov.get(("ui", tuple(path), s[1]), ins[s[1]])))
             elif s[0] == "o" and s[1] < j:
                 vals.append(outs[s[1]][s[2]])
             elif s[0] == "o":
@@ -247,7 +249,7 @@ def py_eval(n, ins, ov, path, prev=None):
             else:
                 vals.append(ov.get((tuple(path) + (j,), i), default_tok(ch, i)))
         outs.append(py_eval(ch, vals, ov, tuple(path) + (j,), prev["kids"][j] if prev else None))
-    return [ins[r[1]] if r[0] == "a" else outs[r[1]][r[2]] for r in n["rets"]]
+    return [ov.get(("ui", tuple(path), r[1]), ins[r[1]]) if r[0] == "a" else outs[r[1]][r[2]] for r in n["rets"]]
 
 
 def has_cyc(n):
@@ -561,7 +563,7 @@ def _followups(defn, op):
         return []
     side, path, idx = tgt
     if side == "in":
-        return [["resend", path, idx], ["setin", path, idx, None]]
+        return [["resend", path, idx], ["setin", path, idx, None], ["run"], ["run"]]
     ret = node_at(defn, path)["rets"][idx]
     if ret[0] == "a":
         return [["setuiout", path, ret[1], None]]
@@ -609,7 +611,7 @@ def gen_history(rng, defn, mode, cache):
         t += 1
         if pending and rng.random() < 0.6:
             op = pending.pop(0)
-            if op[-1] is None:
+            if len(op) > 1 and op[-1] is None:
                 op = op[:-1] + [_value(rng)]
             ops.append(op)
             continue
@@ -2081,13 +2083,26 @@ def oracle(case, impl):
             break
         if bad:
             return fails + bad
-        if rf is not None and not any(k[0] == "in" for k in broken):
+        if rf is not None:
             prev_s = next((x for x in reversed(snaps[:t]) if x is not None), None)
-            exp = py_eval(defn, s["in"], ov, (), prev_s)
+            # the body runs on what its channels hold: where the receiving end of an input link was written
+            # (KF-C09-2) that is the written value, until the macro input is assigned again
+            eff = dict(ov)
+            in_broken = [k for k in broken if k[0] == "in"]
+            for _side, P, K in in_broken:
+                sub = s
+                for jj in P:
+                    sub = sub["kids"][jj]
+                ro = role(node_at(defn, list(P)), K)
+                if ro[0] == "child":
+                    eff[(tuple(P) + (ro[1],), ro[2])] = sub["kids"][ro[1]]["in"][ro[2]]
+                elif ro == ("ui",) and K in sub["ui"]:
+                    eff[("ui", tuple(P), K)] = sub["ui"][K][0]
+            exp = py_eval(defn, s["in"], eff, (), prev_s)
             if s["out"] != exp:
                 return fails + _f("outputs", f"after op #{t} {op}: macro outputs {s['out']} but plain Python gives {exp}",
                                   trigger=op[0], against="python")
-            if rf["flat"] is not None and rf["flat"] != exp:
+            if rf["flat"] is not None and not in_broken and rf["flat"] != exp:
                 return fails + _f("outputs", f"after op #{t} {op}: the inlined workflow gives {rf['flat']}, plain "
                                   f"Python {exp}", trigger=op[0], against="inlined-vs-python")
     return fails
